@@ -172,6 +172,11 @@ def r_acceptance(ck: Checker) -> None:
     txt = unparse(upd[0].args[0]).replace(" ", "")
     ck.add("needed += (globals of the old body - globals of the remaining body) & variables still present", txt in ("(global_vars_inside_body(stm.body)-global_vars_inside_body(newbody))&allvars", "global_vars_inside_body(stm.body)-global_vars_inside_body(newbody)&allvars"), func, upd[0], f"`{txt}`",
            "a variable bound only by a simplified aggregate/comparison and used inside a conditional literal must stay defined; with the difference reversed the set is empty and the variable silently becomes local")
+    # what an objective requires: the variables of its weight, its priority and every tuple term
+    got_nb = {same_key(t) for s_, t in contributions(func, "need_bound")}
+    want_nb = {same_key("collect_ast(stm.weight, 'Variable')"), same_key("collect_ast(stm.priority, 'Variable')"), same_key("[_e for t in stm.terms for _e in collect_ast(t, 'Variable')]")}
+    ck.add("an objective needs the variables of weight, priority and all tuple terms", want_nb <= got_nb, func, func.node, f"need_bound is fed {sorted(t for s_, t in contributions(func, 'need_bound'))}",
+           "a variable that occurs only in the priority and is defined by a simplified equation (`P = N+1`) loses its definition: `[W@P,J]` becomes unsafe")
     nd = single_def(func, "needed")
     ck.add("needed = everything bound, unbound or required by head / objective", nd is not None and unparse(nd).replace(" ", "") == "set.union(bound_body,unbound_body,need_bound,no_bound_needed)", func, func.node, f"needed = `{unparse(nd) if nd is not None else None}`", "")
     ub = single_def(func, "unbound")
@@ -407,6 +412,14 @@ PASS_PROPS = {
 
 # passes that build a DomainPredicates object from the program handed to their constructor
 DOMAIN_USERS = ("InlineTranslator", "LiteralDuplicationTranslator", "MinMaxAggregator", "SumAggregator", "SymmetryTranslator")
+
+
+def same_key(text: str) -> str:
+    """normal form of an expression text (comprehension variables positional)"""
+    from ..nform import canon_expr
+    from .util import _comp_alpha
+
+    return _comp_alpha(canon_expr(text))
 
 
 def _api_pass(cname: str):  # type: ignore[no-untyped-def]
